@@ -41,7 +41,7 @@ LEAVES = [
 ]
 
 SHAPES = ["add", "sub", "mul", "smul_l", "smul_r", "div", "neg", "dist_l", "dist_r", "sum_sum", "sub_sum", "iadd", "pysum", "npscalar", "intscalar",
-          "product", "squeeze", "simplify", "simplify_merge", "eqhash"]
+          "plain_list", "product", "squeeze", "simplify", "simplify_merge", "eqhash"]
 
 
 def instances(tier, seed):
@@ -56,7 +56,7 @@ def instances(tier, seed):
         elif shape in ("add", "sub", "mul", "iadd", "eqhash"):
             for a, b in pairs + [(6, 7), (7, 6)]:
                 out.append(dict(shape=shape, leaves=[a, b], label="%s leaves=%d,%d" % (shape, a, b), key=shape + ("/2qn" if a in two_comp else "")))
-        elif shape in ("dist_l", "dist_r", "sub_sum", "pysum", "product"):
+        elif shape in ("dist_l", "dist_r", "sub_sum", "pysum", "product", "plain_list"):
             for a, b, c in ([(0, 1, 2), (4, 3, 5), (2, 2, 0)] if tier == "quick" else list(itertools.product(one_comp, repeat=3))) + [(6, 6, 7), (7, 6, 6), (6, 7, 6)]:
                 out.append(dict(shape=shape, leaves=[a, b, c], label="%s leaves=%d,%d,%d" % (shape, a, b, c), key=shape + ("/2qn" if a in two_comp else "")))
         elif shape == "sum_sum":
@@ -133,6 +133,17 @@ def make_harness(P):
         elif shape == "dist_r":
             ctx.check("[[(a + b) * c]] = ([[a]] + [[b]])[[c]]", ctx.eq(denote_sum((L[0] + L[1]) * L[2]), (D[0] + D[1]).dot(D[2])))
             ctx.check("[[s * (a + b)]] and [[(a + b) * s]]", ctx.all([ctx.eq(denote_sum(s * (L[0] + L[1])), (D[0] + D[1]) * s), ctx.eq(denote_sum((L[0] + L[1]) * s), (D[0] + D[1]) * s)]))
+        elif shape == "plain_list":
+            # plain Python lists of Op as operands (added after a seeded defect that routed `list * Op` through `Op * list`)
+            r = [L[0], L[1]] * L[2]
+            ctx.check("[[ [a, b] * c ]] = ([[a]] + [[b]])[[c]] and is an OpSum", ctx.all([isinstance(r, OpSum), ctx.eq(denote_sum(r), (D[0] + D[1]).dot(D[2]))]))
+            ctx.check("[[ c * [a, b] ]] = [[c]]([[a]] + [[b]])", ctx.eq(denote_sum(L[2] * [L[0], L[1]]), D[2].dot(D[0] + D[1])))
+            ctx.check("[[ (a + b) * [c, a] ]] = ([[a]] + [[b]])([[c]] + [[a]])", ctx.eq(denote_sum((L[0] + L[1]) * [L[2], L[0]]), (D[0] + D[1]).dot(D[2] + D[0])))
+            ctx.check("[[ c + [a, b] ]] and [[ (a + b) + [c] ]]", ctx.all([ctx.eq(denote_sum(L[2] + [L[0], L[1]]), D[0] + D[1] + D[2]), ctx.eq(denote_sum((L[0] + L[1]) + [L[2]]), D[0] + D[1] + D[2])]))
+            ctx.check("[[ c - (a + b) ]]", ctx.eq(denote_sum(L[2] - (L[0] + L[1])), D[2] - D[0] - D[1]))
+            acc = OpSum([L[0]])
+            acc += [L[1], L[2]]
+            ctx.check("OpSum += list", ctx.eq(denote_sum(acc), D[0] + D[1] + D[2]))
         elif shape == "sum_sum":
             ctx.check("[[(a + b) * (c + d)]] = ([[a]]+[[b]])([[c]]+[[d]])", ctx.eq(denote_sum((L[0] + L[1]) * (L[2] + L[3])), (D[0] + D[1]).dot(D[2] + D[3])))
             ctx.check("[[(a + b) + (c + d)]]", ctx.eq(denote_sum((L[0] + L[1]) + (L[2] + L[3])), D[0] + D[1] + D[2] + D[3]))
